@@ -6,7 +6,7 @@
    convert_from_object_bitfield, as sequential mutations of a byte memory.
    A result is [mem, err, ovf]: err = "" or the exception class, ovf = a write went past the
    allocation.  `v' is the model variant: "faithful", or deliberately broken
-   "nozero" | "noplus1" | "unionall" | "nodictprepass".                                      *)
+   "nozero" | "noplus1" | "unionall" | "nodictprepass" | "noforce-when-size-known".                                      *)
 EXTENDS NewInitIdeal
 
 R0(mem) == [mem |-> mem, err |-> "", ovf |-> FALSE]
@@ -122,12 +122,30 @@ VarSize(v, T, init, acc) ==
     [] init.k = "dict" -> IF v = "nodictprepass" THEN acc ELSE VarSizeDict(v, T, init.items, 1, acc)
     [] OTHER -> [acc EXCEPT !.err = "TypeError"]
 
+\* ---- CT_WITH_VAR_ARRAY as b_complete_struct_or_union (:5218-5249) computes it when X is realized.
+\*      mode = "abi": in-line FFI, nested struct types are complete before the outer one is built.
+\*      mode = "api": out-of-line module, struct types are *lazy* (size known from the C compiler, field list
+\*      and flags unknown) until force_lazy_struct; completing X forces each nested struct type before looking
+\*      at its flag.  innerFirst = the nested types had already been forced by an earlier use.
+\*      Variant "noforce-when-size-known": the nested type is forced only if its size is unknown, i.e. never
+\*      in API mode - its flag is then still unset when the outer type looks at it.
+RECURSIVE VarFlag(_, _, _, _)
+NestedFlagSeen(v, ft, mode, innerFirst) ==
+  IF mode = "abi" \/ innerFirst \/ v # "noforce-when-size-known"
+    THEN VarFlag(v, ft, mode, innerFirst)        \* realized (now or earlier): the flag it computed for itself
+    ELSE FALSE                                   \* still lazy: ct_flags_mut not set yet
+VarFlag(v, T, mode, innerFirst) ==
+  T.k = "struct" /\ \E i \in 1..Len(T.fields) :
+      \/ IsOpen(T.fields[i].t)
+      \/ T.fields[i].t.k = "struct" /\ NestedFlagSeen(v, T.fields[i].t, mode, innerFirst)
+
 \* ---- direct_newp: ffi.new('X *', init) (isptr) or ffi.new('X[..]', init); result [size, mem, err, ovf]
+\*      flag = CT_WITH_VAR_ARRAY of X as the type system computed it
 Fresh(v, n) == IF v = "nozero" THEN [i \in 1..n |-> 170] ELSE Zeros(n)
-DirectNewp(v, X, init, isptr) ==
+DirectNewpF(v, X, init, isptr, flag) ==
   IF isptr
     THEN LET base == IF X.k = "prim" /\ X.ischar = 1 THEN 2 * X.size ELSE X.size   \* char: room for a null
-             vs   == IF WithVar(X) /\ init.k # "none"
+             vs   == IF flag /\ init.k # "none"
                        THEN VarSize(v, X, init, [size |-> base, err |-> ""])
                        ELSE [size |-> base, err |-> ""]
          IN IF vs.err # "" THEN [size |-> 0, mem |-> <<>>, err |-> vs.err, ovf |-> FALSE]
@@ -140,6 +158,8 @@ DirectNewp(v, X, init, isptr) ==
             ELSE LET r == IF ini.k = "none" THEN R0(Fresh(v, n * X.isz))
                           ELSE ConvertFromObject(v, R0(Fresh(v, n * X.isz)), X, 0, ini)
                  IN [size |-> n * X.isz, mem |-> r.mem, err |-> r.err, ovf |-> r.ovf]
+
+DirectNewp(v, X, init, isptr) == DirectNewpF(v, X, init, isptr, WithVar(X))
 
 \* "p = ffi.new('X *'); p[0] = init" on an allocation of `size' bytes (cdata_ass_sub -> convert_from_object)
 NewThenAssign(v, X, init, size) == ConvertFromObject(v, R0(Fresh(v, size)), X, 0, init)
